@@ -120,6 +120,7 @@ fn required_c05(plan: &Plan) -> Vec<String> {
         "op:clear",
         "op:reserve",
         "op:merge_regions",
+        "op:reserve_regions",
     ] {
         v.push(t.to_string());
     }
@@ -703,6 +704,17 @@ where
                         ctx.log(format!("reserve({add})"));
                         ctx.cover("op:reserve");
                         panics::catch(|| fsto::Storage::<usize>::reserve(&mut c, add))
+                    } else if r.is_ok() && !cost && ctx.rng.chance(1, 60) {
+                        // reserve_regions over two other containers (semantically invisible)
+                        let mut o1 = C::default();
+                        let mut o2 = C::default();
+                        for k in 0..17usize {
+                            fidx::IndexContainer::push(&mut o1, k * 2);
+                            fidx::IndexContainer::push(&mut o2, k << 35);
+                        }
+                        ctx.log("reserve_regions([o1, o2])".into());
+                        ctx.cover("op:reserve_regions");
+                        panics::catch(|| fsto::Storage::<usize>::reserve_regions(&mut c, [&o1, &o2].into_iter()))
                     } else {
                         r
                     }
